@@ -2,6 +2,7 @@ package c05
 
 import (
 	"fmt"
+	"strings"
 
 	"github.com/zclconf/go-cty/cty"
 
@@ -25,7 +26,7 @@ func directedRefinements(cx *lib.Ctx) {
 	n := cx.Scale(1500, 40000)
 	for i := 0; i < n; i++ {
 		r := R.Fork()
-		shape := r.Intn(6)
+		shape := r.Intn(7)
 		var src string
 		scope := evalgen.Scope{}
 		absVals := map[string]cty.Value{}
@@ -127,6 +128,64 @@ func directedRefinements(cx *lib.Ctx) {
 				{"c": cty.False, "s": cty.StringVal(p1), "t": cty.StringVal(p2 + "2")},
 			}
 			res.Count("directed:cond-prefix")
+		case 6:
+			// an unknown key into a known collection that holds unknown elements: whatever is said about the
+			// result (not null, a range, a prefix) must also hold when the key selects an element that is
+			// still unknown — which may turn out to be null, or anything of its type
+			elemNull := r.Chance(1, 2)
+			switch r.Intn(4) {
+			case 0:
+				src = r.Pick([]string{"m[k]", "m[k] == null", "[m[k]]", "m[k] != null ? 1 : 2"})
+				scope["m"] = cty.MapVal(map[string]cty.Value{"a": cty.StringVal("x"), "b": cty.StringVal("y")})
+				scope["k"] = cty.StringVal("a")
+				absVals["m"] = cty.MapVal(map[string]cty.Value{"a": cty.UnknownVal(cty.String), "b": cty.StringVal("y")})
+				absVals["k"] = cty.UnknownVal(cty.String)
+				ce := cty.StringVal("other")
+				if elemNull {
+					ce = cty.NullVal(cty.String)
+				}
+				concs = []map[string]cty.Value{
+					{"m": cty.MapVal(map[string]cty.Value{"a": ce, "b": cty.StringVal("y")}), "k": cty.StringVal("a")},
+					{"m": scope["m"], "k": cty.StringVal("b")},
+				}
+			case 1:
+				src = r.Pick([]string{"m[k]", "m[k] == null", "m[k] + 1", "[m[k]]"})
+				scope["m"] = cty.ListVal([]cty.Value{cty.NumberIntVal(3), cty.NumberIntVal(5)})
+				scope["k"] = cty.NumberIntVal(0)
+				absVals["m"] = cty.ListVal([]cty.Value{cty.UnknownVal(cty.Number), cty.NumberIntVal(5)})
+				absVals["k"] = cty.UnknownVal(cty.Number)
+				ce := cty.NumberIntVal(-40)
+				if elemNull && !strings.Contains(src, "+") {
+					ce = cty.NullVal(cty.Number)
+				}
+				concs = []map[string]cty.Value{
+					{"m": cty.ListVal([]cty.Value{ce, cty.NumberIntVal(5)}), "k": cty.NumberIntVal(0)},
+					{"m": scope["m"], "k": cty.NumberIntVal(1)},
+				}
+			case 2:
+				src = r.Pick([]string{"m.inner[k]", "m.inner[k] == null", "{ x = m.inner[k] }"})
+				inner := func(e cty.Value) cty.Value {
+					return cty.ObjectVal(map[string]cty.Value{"inner": cty.MapVal(map[string]cty.Value{"a": e, "b": cty.True})})
+				}
+				scope["m"] = inner(cty.False)
+				scope["k"] = cty.StringVal("a")
+				absVals["m"] = inner(cty.UnknownVal(cty.Bool))
+				absVals["k"] = cty.UnknownVal(cty.String)
+				ce := cty.False
+				if elemNull {
+					ce = cty.NullVal(cty.Bool)
+				}
+				concs = []map[string]cty.Value{{"m": inner(ce), "k": cty.StringVal("a")}, {"m": scope["m"], "k": cty.StringVal("b")}}
+			default:
+				// every element unknown, the key refined not-null
+				src = r.Pick([]string{"m[k]", "m[k] == null"})
+				scope["m"] = cty.MapVal(map[string]cty.Value{"a": cty.StringVal("x")})
+				scope["k"] = cty.StringVal("a")
+				absVals["m"] = cty.MapVal(map[string]cty.Value{"a": cty.UnknownVal(cty.String)})
+				absVals["k"] = cty.UnknownVal(cty.String).RefineNotNull()
+				concs = []map[string]cty.Value{{"m": cty.MapVal(map[string]cty.Value{"a": cty.NullVal(cty.String)}), "k": cty.StringVal("a")}, {"m": scope["m"], "k": cty.StringVal("a")}}
+			}
+			res.Count("directed:unknown-key-into-partly-unknown-collection")
 		default:
 			// arithmetic / comparison of a refined unknown with a number on its bound
 			bound := num()
